@@ -107,10 +107,19 @@ impl AmlGen<'_> {
             let tag = self.tag();
             let block = self.t.chance(1, 3);
             let repeat = allow_repeat && self.t.chance(1, 3);
-            let item = match self.t.draw(8) {
+            let item = match self.t.draw(9) {
                 // ("TAG")*; is valid A2ML but not accepted by the library's A2ML parser: a repeated member always gets a type here
                 0 if !repeat => None,
                 1 => Some(Ty::Seq(Box::new(self.scalar()))),
+                // a sequence whose element may match zero tokens (tagged struct / union, struct of them)
+                2 if depth <= 2 => {
+                    let inner = match self.t.draw(3) {
+                        0 => Ty::TStruct(self.members(depth + 2, true)),
+                        1 => Ty::TUnion(self.members(depth + 2, false)),
+                        _ => Ty::Struct(vec![self.scalar(), Ty::TStruct(self.members(depth + 2, true))]),
+                    };
+                    Some(Ty::Seq(Box::new(inner)))
+                }
                 _ => Some(self.ty(depth)),
             };
             out.push(Member { tag, block, repeat, item });
@@ -316,7 +325,7 @@ fn instance(g: &mut DocGen, ty: &Ty, out: &mut Vec<Item>, depth: u32) {
             }
         }
         Ty::Seq(inner) => {
-            let n = g.t.draw(4);
+            let n = if matches!(**inner, Ty::TStruct(_) | Ty::TUnion(_)) { g.t.draw(2) } else { g.t.draw(4) };
             for _ in 0..n {
                 instance(g, inner, out, depth + 1);
             }
